@@ -59,17 +59,33 @@ def run_guts(c, driver):
     if v["violated"]:
         raise vlib.ToolError("ChaChaFn no longer reproduces the published vectors")
     traces = 0
+    import json
+    # identical episodes (same calls, same outcomes) recorded under several configurations are validated once; an episode whose
+    # outcome differs in one configuration is a distinct episode and is validated - and rejected - on its own
+    uniq = {}
     for build, force in configs(c):
         binary = vlib.build(build)
         trace = os.path.join(wd, "%s-%s-%d.ndjson" % (driver, build, force))
         vlib.run_harness(binary, [driver, "--seed", str(c.seed), "--tier", c.tier, "--force", str(force)], out=trace)
         cfgname = "%s/force=%d" % (build, force)
-        recs, eps, r, _ = vlib.validate_episodes(
-            c, "TraceGuts", trace,
-            lambda e, first: {"ev": e["ev"], "res": e.get("res", "").split(":")[0], "build": build, "force": force, "tag": first.get("tag")},
-            _canary, "%s (%s)" % (driver, cfgname))
+        recs = vlib.read_ndjson(trace)
+        os.remove(trace)
+        eps = vlib.episodes(recs)
         traces += len(eps)
         c.add_events([e for e in recs if e["k"] != 0], key=lambda e: {k: v for k, v in e.items() if k != "k"}, sample=1)
+        for ep in eps:
+            key = json.dumps(ep, sort_keys=True)
+            if key not in uniq:
+                for e in ep:
+                    e["cfgname"] = cfgname
+                uniq[key] = ep
+    trace = os.path.join(wd, "%s-all.ndjson" % driver)
+    vlib.write_ndjson(trace, [e for ep in uniq.values() for e in ep])
+    vlib.validate_episodes(
+        c, "TraceGuts", trace,
+        lambda e, first: {"ev": e["ev"], "res": e.get("res", "").split(":")[0], "cfg": first.get("cfgname"), "tag": first.get("tag")},
+        _canary, "%s" % driver, workers=12)
+    c.cov["distinct_episodes_validated_by_tlc"] = len(uniq)
     c.cov["traces_validated_against_impl"] = traces
     c.cov["configurations"] = ["%s/force=%d" % x for x in configs(c)]
     return traces
